@@ -14,6 +14,8 @@ pub enum FsOp {
     Clear,
     Reserve(usize),
     Clone,
+    /// serde_json round trip of the whole FlatStack; continue with the deserialised stack
+    Serde,
     Observe,
 }
 
@@ -31,6 +33,7 @@ pub fn parse_fs_op(s: &str) -> Result<FsOp, String> {
         ["clear"] => FsOp::Clear,
         ["reserve", n] => FsOp::Reserve(usize::from_str_radix(n, 16).map_err(|e| e.to_string())?),
         ["clone"] => FsOp::Clone,
+        ["serde"] => FsOp::Serde,
         ["observe"] => FsOp::Observe,
         _ => return Err(format!("bad fs op {s}")),
     })
@@ -44,9 +47,9 @@ const PANIC: u128 = 98;
 
 pub fn run_fs<R, S>(ops: &[FsOp]) -> Vec<U>
 where
-    R: Caps + Clone,
+    R: Caps + Clone + serde::Serialize + for<'a> serde::Deserialize<'a>,
     for<'a> R: Push<&'a <R as Region>::Owned>,
-    S: flatcontainer::impls::index::IndexContainer<R::Index> + Clone + 'static,
+    S: flatcontainer::impls::index::IndexContainer<R::Index> + Clone + 'static + serde::Serialize + for<'a> serde::Deserialize<'a>,
 {
     let mut fs = FlatStack::<R, S>::default();
     let mut nidx = 0usize;
@@ -107,6 +110,19 @@ where
                 Some(f) => {
                     fs = f;
                     out.push(U::None)
+                }
+                None => stop!(PANIC),
+            },
+            FsOp::Serde => match caught(|| {
+                let before = crate::state::state_u(&fs);
+                let text = serde_json::to_string(&fs).expect("serialize");
+                let back: FlatStack<R, S> = serde_json::from_str(&text).expect("deserialize");
+                let after = crate::state::state_u(&back);
+                (back, U::L(vec![before, after]))
+            }) {
+                Some((back, u)) => {
+                    fs = back;
+                    out.push(u)
                 }
                 None => stop!(PANIC),
             },
